@@ -26,7 +26,8 @@ RULE = ("Case = (program with tunable parameters built in layers by pbt/gen/c24_
         "hidden true value in 0.1..0.9 for every tunable parameter, AD values summing to <= 1 (exactly 1 when "
         "normalize=True, LFI's model of a tunable AD), n = 3..12 (quick) / 3..30 (thorough) interpretations sampled "
         "from the reference distribution of the program with the true values by random.Random(data_seed) owned by the "
-        "case, normalize in {False (constructor default), True (command-line default)}, an integer passed to "
+        "case (one case in three repeats the whole dataset 300 or 1000 times: LFI groups identical interpretations "
+        "and weighs each group by its count), normalize in {False (constructor default), True (command-line default)}, an integer passed to "
         "random.seed before LFIProblem is built (initial weights), k = 6 (quick) / 12 (thorough) steps).  Sub-check "
         "'em': programs may have a second (deterministic or fixed-probability) clause for a tunable head; an example "
         "is complete with probability 1/3, otherwise each possible ground atom is observed with probability 0.3-0.8. "
@@ -189,6 +190,12 @@ def make_check(mode):
                                     float(case["obs_rate"]), ref, atoms)
             examples = [e["obs"] for e in data]
             worlds = [e["world"] for e in data]
+        copies = int(case.get("copies", 1))
+        if copies > 1:
+            # the dataset repeated: LFI groups identical interpretations and weighs each group by its count
+            examples = [e for e in examples for _ in range(copies)]
+            worlds = [w for w in worlds for _ in range(copies)]
+            feats.add("copies:%d" % copies)
         natoms = len(atoms)
         n_partial = sum(1 for e in examples if len(e) < natoms)
         all_complete = n_partial == 0
@@ -315,7 +322,8 @@ def _cases(mode):
         return {"prog": prog, "normalize": normalize, "n_examples": draw(st.integers(3, MAX_EXAMPLES[tier])),
                 "data_seed": draw(st.integers(0, 2 ** 31 - 1)), "seed": draw(st.integers(0, 2 ** 31 - 1)),
                 "obs": "partial" if mode == "em" else "complete",
-                "obs_rate": draw(st.sampled_from(["0.3", "0.5", "0.8"])), "steps": STEPS[tier]}
+                "obs_rate": draw(st.sampled_from(["0.3", "0.5", "0.8"])), "steps": STEPS[tier],
+                "copies": draw(st.sampled_from([1, 1, 1, 1, 300, 1000]))}
     return cases
 
 
